@@ -56,6 +56,7 @@ class Net:
             self.rec.count('fault.refuse')
             raise Refused(name)
         conn = Conn(self, len(self.conns), name)
+        conn.info = info if isinstance(info, dict) else None
         self.conns.append(conn)
         self.acceptors[name](conn)
         return conn
@@ -77,6 +78,7 @@ class Conn:
         self.nframes = {'c2s': 0, 's2c': 0}
         self.server_task = None
         self.drop_hook = None   # callable(direction, index, data)->bool: sever
+        self.after_hook = None  # callable(direction, data), after delivery
 
     # the client end may be attached after the server has already answered
     # (the opener can be pre-empted between open() and attaching): frames
@@ -158,6 +160,17 @@ class Conn:
         else:
             if not self.told['client']:
                 self._to_client(data)
+        if self.after_hook is not None:
+            self.after_hook(d, data)
+
+    def sever_now(self):
+        """Abrupt loss both sides learn of at this very instant (the marker
+        sits right behind the frames already handed over)."""
+        if self.severed:
+            return
+        self.sever(None, None)
+        self._tell('client')
+        self._tell('server')
 
     # ---- ending -------------------------------------------------------
     def close(self, by, lat=None):
